@@ -68,6 +68,15 @@ func c17Sets() []*c17Set {
 			{ID: "b", Kind: "http", Path: "/b/"},
 			{ID: "rw-tail", Kind: "http", Path: "^/b/(.*)/exact$", Rewrite: "/exact-of/$1"},
 		}},
+		// unanchored patterns: the match may start anywhere in the path and only the matched part
+		// is replaced (regexp.ReplaceAllString semantics)
+		{Name: "rewrite-unanchored", Ups: []c17Up{
+			{ID: "root", Kind: "http", Path: "/"},
+			{ID: "plain-a", Kind: "http", Path: "/a/"},
+			{ID: "rwu-b", Kind: "http", Path: "/b/(.*)", Rewrite: "/moved/$1"},
+			{ID: "rwu-exact", Kind: "http", Path: "exact$", Rewrite: "final"},
+			{ID: "rwu-plus", Kind: "http", Path: "x\\+y/([^/]+)$", Rewrite: "plus/$1?from=u"},
+		}},
 		{Name: "static", Legacy: true, Ups: []c17Up{{ID: "static", Kind: "static", Path: "/", Code: 202}, {ID: "a", Kind: "http", Path: "/a/"}, {ID: "ab", Kind: "http", Path: "/a/b/"}}},
 		{Name: "file-mixed", Ups: []c17Up{
 			{ID: "files", Kind: "file", Path: "/b/"},
